@@ -38,8 +38,8 @@ CHECKS = {
    "Exploration over histories with set_input_offset (chunk-index lattice), updates clamped to the offset's subtree limit, finalize variants, inherent and trait reset, clone/swap; after each reset a freshly constructed twin runs the same suffix and both are compared with each other and with the spec after every op.",
    SPEC + DBG, "DESIGN.md §3 C10"),
  "C11": C("property-based fault injection: scripted Read implementations + file-length lattice, spec oracle",
-   "Exploration over reader behaviours (short reads, Interrupted, six kinds of hard errors, early EOF in any order), with prefixes and continued use after errors; files of every length around the 16 KiB mapping threshold and beyond through update_mmap, update_mmap_rayon and update_reader(File); special paths, directory, missing path; Write adapters.",
-   SPEC + DBG + "Special files are used only if present with stable finite content; FIFOs and endless devices are excluded (they would hang, which is not evidence).", "DESIGN.md §3 C11"),
+   "Exploration over reader behaviours (short reads, Interrupted, six kinds of hard errors, early EOF in any order), with prefixes and continued use after errors; files of every length around the 16 KiB mapping threshold and beyond through update_mmap, update_mmap_rayon and update_reader(File); special paths (incl. a sysfs file whose mmap fails and large procfs files), named pipes fed in pieces by a writer thread, directory, missing path; Write adapters.",
+   SPEC + DBG + "Special files are used only if present with stable finite content; Named pipes are fed a finite script by a writer thread that is always drained; endless devices are excluded (they would hang, which is not evidence).", "DESIGN.md §3 C11"),
  "C14": C("exhaustive sweeps over decomposed value spaces + proptest, independent hex codec as oracle",
    "Exploration with exhaustive sub-spaces: every byte value at every position of a hash (all conversions incl. serde JSON/CBOR and the legacy CBOR byte string), every byte value at every position of a valid hex string, all lengths 0..=130, from_slice for all lengths 0..=100, all 256 single-bit pairs; plus random inputs.",
    "Trusts the independent hex codec in the harness, serde_json and ciborium. Wrong-length serde inputs are not asserted (the property does not state their fate). Timing of equality is out of scope.", "DESIGN.md §3 C14"),
@@ -66,7 +66,7 @@ CHECKS.update({
    "Exploration in-process on b3sum's filepath_to_string and parse_check_line (main.rs is include!-d unchanged): 200k paths from a hostile alphabet in both forms and three terminators must round-trip exactly when representable and be rejected otherwise; arbitrary text, near-valid lines and every single-character replace/insert/delete mutant of valid base lines must never panic, and any accepted line is verified as a certificate against the line text (so lines with several conceivable decompositions cannot raise false alarms); constructed members of the always-error classes must be rejected.",
    "Trusts the model of the documented escaping (\\\\, \\n, \\r) in the harness. Windows path normalisation is not executable here.", "DESIGN.md §3 C13"),
  "C18": C("property-based stress testing: generated per-thread programs on disjoint instances in fresh processes, spec oracle per thread",
-   "Exploration: 2-32 threads, each with its own generated program over its own Rust and C instances (one-shots, update histories incl. rayon/mmap, XOF readers, C hashers of both builds, construct-update-finalize bursts, long streams through update_reader/mmap/rayon), released together by a barrier in a fresh child process so that CPU-feature detection itself races, repeated 12-40 times; every thread's outputs must equal the spec (= what it yields alone) and the process must exit cleanly; a failing case counts only if it shows again in amplified re-executions; plus a ThreadSanitizer driver over the C API.",
+   "Exploration: 2-32 threads, each with its own generated program over its own Rust and C instances (one-shots, update histories incl. rayon/mmap, XOF readers, C hashers of both builds, construct-update-finalize bursts, long streams through update_reader/mmap/rayon), released together by a barrier in a fresh child process so that CPU-feature detection itself races, repeated 12-40 times; every thread's outputs must equal the spec (= what it yields alone) and the process must exit cleanly; a second sub releases the threads of a fresh process by a spin barrier straight into their first library call (expected values prepared by the spec model beforehand) and repeats that with the C detection cache reset; a failing case counts only if it shows again in amplified re-executions; plus a ThreadSanitizer driver over the C API.",
    SPEC + "Detection of a race is probabilistic: interleavings are not controlled or enumerated (see DESIGN.md §7); a bug needing one specific interleaving can be missed.", "DESIGN.md §3 C18"),
 })
 
